@@ -286,6 +286,52 @@ def runSkips (pinned : Bool) (limit : Int) (stops : List Bytes) : St → List Na
         let st' := stepPiece pinned stops st0 p
         if st'.done.isSome then st' else runSkips pinned limit stops st' skips.tail rest
 
+/-! ## the `completion` HTTP handler: what the client receives
+
+`func (s *Server) completion` reads `seq.responses`: every chunk becomes one JSON line
+`{"content": chunk, …zero fields}`; when the channel is closed it writes one final line
+`{done: true, done_reason: seq.doneReason, prompt_eval_count: seq.numPromptInputs,
+eval_count: seq.numPredicted, …durations}` and returns; when the request context is cancelled (client
+gone) it closes `seq.quit` and returns without a final line. -/
+
+/-- the loop after at most `n` calls of processBatch (`run` = enough calls for the whole script) -/
+def runN (pinned : Bool) (limit : Int) (stops : List Bytes) : Nat → St → List Ev → St
+  | 0, st, _ => st
+  | _ + 1, st, [] =>
+    if limit > 0 ∧ (st.numPredicted : Int) ≥ limit then st.finish .length .limit else st
+  | n + 1, st, ev :: rest =>
+    if limit > 0 ∧ (st.numPredicted : Int) ≥ limit then st.finish .length .limit
+    else match ev with
+      | .eos => ({ st with numPredicted := st.numPredicted + 1 }).finish .stop .eos
+      | .piece p =>
+        let st' := stepPiece pinned stops st p
+        if st'.done.isSome then st' else runN pinned limit stops n st' rest
+
+/-- one JSON line of the streamed response (durations left out) -/
+inductive Line
+  | content (c : Bytes)
+  | final (reason : Reason) (promptEvalCount evalCount : Nat)
+  deriving DecidableEq, Repr
+
+/-- the lines the handler has written for a sequence in state `f` (all chunks consumed) -/
+def handlerLines (promptLen : Nat) (f : St) : List Line :=
+  f.out.map Line.content ++
+    (match f.done with
+     | some r => [Line.final r promptLen f.numPredicted]
+     | none => [])
+
+/-- the text a client assembles: the concatenation of the `content` fields -/
+def clientText : List Line → Bytes
+  | [] => []
+  | .content c :: ls => c ++ clientText ls
+  | .final _ _ _ :: ls => clientText ls
+
+/-- the finish reason a client sees: the `done_reason` of the final object, if there is one -/
+def clientReason : List Line → Option Reason
+  | [] => none
+  | .final r _ _ :: _ => some r
+  | .content _ :: ls => clientReason ls
+
 /-- the text generated up to the terminating event -/
 def St.genText (st : St) : Bytes := st.gen.flatten
 /-- the concatenation of everything streamed -/
